@@ -13,7 +13,7 @@ TECHNIQUE = 'runtime monitoring: deterministic work meter (sys.monitoring LINE e
 RULE = ('every decoder entry point found by introspection of yabgp.message.* (x its boolean/protocol-id parameter variants) is called '
         'on: ALL byte strings of length 0-2 (exhaustive; length 3 for the cheapest decoders in the thorough tier), every single-octet '
         'edit, truncation and 16-bit length-field edit of each corpus string it accepts, every registered link-state / Prefix-SID TLV '
-        'type x body length 0..16 x 3 fills (alone and nested in an UPDATE), and seeded random mutations up to 4096 octets; a call must '
+        'type x body length 0..16 x 3 fills (alone and nested in an UPDATE), 2-octet heads x 19 short type-length-value tails, reference-encoded UPDATE bodies with every part present (with and without path identifiers), and seeded random mutations up to 4096 octets; a call must '
         'finish (return or raise) within 2000 + 400*len executed yabgp lines; Update.parse must return a result whenever both length '
         'fields fit the body; distinct = distinct (decoder variant, input) pairs executed')
 ASSUMPTIONS = ['work measured in executed yabgp source lines (sys.monitoring), not wall-clock time', 'budget 2000 + 400*len(input) lines']
